@@ -1,6 +1,8 @@
 import IpaVerif.Model.Util
 import IpaVerif.Model.CircularBuf
 import IpaVerif.Model.QueueSpec
+import IpaVerif.Model.OrderingSender
+import IpaVerif.Model.SenderSpec
 /-! Line-protocol handlers for property C14 (model side). Import-free.
 
 `c14.circ <cap> <ws> <rs> <op,op,…>` with ops `w<hex>` (next().write), `t` (take), `c` (close);
@@ -8,7 +10,10 @@ response: one item per op separated by `;`: `<out>|<len>|<can_read>|<can_write>|
 `<out>` is `ok` or the hex of the bytes returned by `take` (`-` = empty); the trace ends with
 `panic:<tag>` at the first panic; `new` panicking is the single item `panic:<tag>`. -/
 namespace IpaVerif.Driver.C14
-open IpaVerif.Util IpaVerif.CircularBuf
+open IpaVerif.Util
+
+section Circ
+open IpaVerif.CircularBuf
 
 def parseCircOp (s : String) : Option Op :=
   match s.toList with
@@ -47,6 +52,102 @@ def circSpec (cap ws rs : Nat) (ops : List Op) : String :=
   if cap = 0 ∨ ws = 0 ∨ rs = 0 ∨ cap % ws ≠ 0 ∨ rs % ws ≠ 0 then "panic"
   else stripPanic (showTrace (specRun ⟨cap, ws, rs⟩ ⟨[], false⟩ ops))
 
+end Circ
+
+/-! ### `c14.sender <cap> <ws> <rs> <op,…>`: ops `s<t>.<i>.<hex>` (poll Send), `c<t>.<i>` (poll Close),
+`t<t>` (poll take_next), `<t>` = waker id.  Response item per poll: `<res>|<woken>` with `<res>` ∈
+`R` (Ready), `P` (Pending), `N` (Ready(None)), `=<hex>` (Ready(Some(chunk))) and `<woken>` the ids
+woken during the poll in order, `.`-separated (`-` = none); the trace ends at `panic:<tag>`. -/
+namespace Sender
+open IpaVerif.OrderingSender
+
+def parseOp (s : String) : Option Op :=
+  match s.toList with
+  | 's' :: rest =>
+    match (String.ofList rest).splitOn "." with
+    | [t, i, h] => do
+        let m ← if h = "" then some [] else parseHexBytes h
+        pure (.pollSend (← t.toNat?) (← i.toNat?) m)
+    | _ => none
+  | 'c' :: rest =>
+    match (String.ofList rest).splitOn "." with
+    | [t, i] => do pure (.pollClose (← t.toNat?) (← i.toNat?))
+    | _ => none
+  | 't' :: rest => do pure (.pollTake (← (String.ofList rest).toNat?))
+  | _ => none
+
+def parseOps (s : String) : Option (List Op) :=
+  if s = "-" then some [] else (s.splitOn ",").mapM parseOp
+
+def showRes : Res → String
+  | .ready => "R"
+  | .pending => "P"
+  | .finished => "N"
+  | .chunk v => "=" ++ bytesHex v
+
+def showWoken (w : List Nat) : String :=
+  if w.isEmpty then "-" else String.intercalate "." (w.map toString)
+
+def showItem : Except String Out → String
+  | .error e => s!"panic:{e}"
+  | .ok o => s!"{showRes o.res}|{showWoken o.woken}"
+
+def model (cap ws rs : Nat) (ops : List Op) : String :=
+  match State.new cap ws rs with
+  | .error e => s!"panic:{e}"
+  | .ok s =>
+    let t := run s ops
+    if t.isEmpty then "-" else String.intercalate ";" (t.map showItem)
+
+def parseWoken (s : String) : Option (List Nat) :=
+  if s = "-" then some [] else (s.splitOn ".").mapM String.toNat?
+
+/-- Spec-side check of an implementation trace: results equal those of `Spec`, every required
+waker is among the woken ones, and (directly) the emitted chunks concatenate to a prefix of the
+messages accepted, which were accepted in index order. -/
+def check (cap ws rs : Nat) (ops : List Op) (impl : String) : Option String := Id.run do
+  if cap = 0 ∨ ws = 0 ∨ rs = 0 ∨ cap % ws ≠ 0 ∨ rs % ws ≠ 0 then
+    return (if impl.startsWith "panic" then none else some "constructor accepted an invalid configuration")
+  let items := if impl = "-" then [] else impl.splitOn ";"
+  let mut s : Spec := { cap, ws, rs }
+  let mut rest := items
+  let mut accepted : List Nat := []
+  let mut emitted : List Nat := []
+  let mut nextIdx := 0
+  for op in ops do
+    match rest with
+    | [] => return some "trace shorter than the schedule"
+    | it :: more =>
+      rest := more
+      match s.step op with
+      | none =>
+        if it.startsWith "panic" then return none
+        else return some s!"expected a panic at {repr op}, got {it}"
+      | some (s', r, req) =>
+        match it.splitOn "|" with
+        | [res, wk] =>
+          if res ≠ showRes r then return some s!"result {res} but the ordered queue gives {showRes r}"
+          let some woken := parseWoken wk | return some "unparsable woken list"
+          for w in req do
+            if !woken.contains w then return some s!"lost wake-up: waker {w} must be woken by this poll"
+          match op, r with
+          | .pollSend _ i m, .ready =>
+            if i ≠ nextIdx then return some "message accepted out of index order"
+            nextIdx := nextIdx + 1
+            accepted := accepted ++ m
+          | .pollClose _ i, .ready =>
+            if i ≠ nextIdx then return some "close accepted out of index order"
+            nextIdx := nextIdx + 1
+          | _, .chunk v => emitted := emitted ++ v
+          | _, _ => pure ()
+          if !(emitted.isPrefixOf accepted) then return some "emitted bytes are not a prefix of msg0‖msg1‖…"
+          s := s'
+        | _ => return some s!"unparsable item {it}"
+  if !rest.isEmpty then return some "trace longer than the schedule"
+  return none
+
+end Sender
+
 def handle (toks : List String) : Option String :=
   match toks with
   | ["c14.circ", cap, ws, rs, ops] => some <| Id.run do
@@ -55,6 +156,12 @@ def handle (toks : List String) : Option String :=
       let some rs := rs.toNat? | return "bad-request"
       let some ops := parseCircOps ops | return "bad-request"
       return circ cap ws rs ops
+  | ["c14.sender", cap, ws, rs, ops] => some <| Id.run do
+      let some cap := cap.toNat? | return "bad-request"
+      let some ws := ws.toNat? | return "bad-request"
+      let some rs := rs.toNat? | return "bad-request"
+      let some ops := Sender.parseOps ops | return "bad-request"
+      return Sender.model cap ws rs ops
   | _ => none
 
 def oracle (toks : List String) (impl : String) : Option String :=
@@ -67,6 +174,14 @@ def oracle (toks : List String) (impl : String) : Option String :=
       let want := circSpec cap ws rs ops
       if stripPanic impl = want then return "holds"
       else return s!"fails ring buffer trace differs from the FIFO byte queue: want {want}"
+  | ["c14.sender", cap, ws, rs, ops] => some <| Id.run do
+      let some cap := cap.toNat? | return "unknown"
+      let some ws := ws.toNat? | return "unknown"
+      let some rs := rs.toNat? | return "unknown"
+      let some ops := Sender.parseOps ops | return "unknown"
+      match Sender.check cap ws rs ops impl with
+      | none => return "holds"
+      | some why => return s!"fails {why}"
   | _ => none
 
 end IpaVerif.Driver.C14
